@@ -216,7 +216,8 @@ theorem Triple.getSt_bind {β : Type} {P : St → Prop} {f : St → Run β} {Q :
 
 /-! ### the call log -/
 
-def NonDestroy (c : Call) : Prop := ∀ k, c ≠ .kmDestroy k
+/-- a call that is neither the manager's DestroyKeyVersion nor Cloud KMS's DestroyCryptoKeyVersion -/
+def NonDestroy (c : Call) : Prop := ∀ k, c ≠ .kmDestroy k ∧ c ≠ .kmsDestroy k
 
 def NoDestroy (log : List (Call × Fault)) : Prop := ∀ e ∈ log, NonDestroy e.1
 
@@ -239,10 +240,20 @@ def commitCall (cfg : Cfg) : Call × Fault :=
 def DAC (cfg : Cfg) (log : List (Call × Fault)) : Prop :=
   ∀ pre k f post, log = pre ++ (Call.kmDestroy k, f) :: post → f ≠ .fail → commitCall cfg ∈ pre
 
+/-- … and the same one level down: every DestroyCryptoKeyVersion request that reached Cloud KMS is
+    preceded by the completed commit call. -/
+def DACK (cfg : Cfg) (log : List (Call × Fault)) : Prop :=
+  ∀ pre k f post, log = pre ++ (Call.kmsDestroy k, f) :: post → f ≠ .fail → commitCall cfg ∈ pre
+
 theorem DAC_of_noDestroy (cfg : Cfg) {log : List (Call × Fault)} (h : NoDestroy log) : DAC cfg log := by
   intro pre k f post hl _
   have : (Call.kmDestroy k, f) ∈ log := by rw [hl]; simp
-  exact absurd rfl (h _ this k)
+  exact absurd rfl (h _ this k).1
+
+theorem DACK_of_noDestroy (cfg : Cfg) {log : List (Call × Fault)} (h : NoDestroy log) : DACK cfg log := by
+  intro pre k f post hl _
+  have : (Call.kmsDestroy k, f) ∈ log := by rw [hl]; simp
+  exact absurd rfl (h _ this k).2
 
 theorem snoc_eq_append_cons {α : Type} {L pre post : List α} {x y : α}
     (h : L ++ [x] = pre ++ y :: post) : (post = [] ∧ pre = L ∧ y = x) ∨ y ∈ L := by
@@ -270,6 +281,44 @@ theorem DAC_snoc_destroy (cfg : Cfg) {log : List (Call × Fault)} (h : NoDestroy
   intro pre k' f' post hl _
   rcases snoc_eq_append_cons hl with ⟨_, h2, _⟩ | h4
   · rw [h2]; exact hc
-  · exact absurd rfl (h _ h4 k')
+  · exact absurd rfl (h _ h4 k').1
+
+/-- appending a call other than DestroyKeyVersion keeps destroy-after-commit -/
+theorem DAC_snoc_other (cfg : Cfg) {log : List (Call × Fault)} (h : DAC cfg log) {c : Call}
+    (hc : ∀ k, c ≠ .kmDestroy k) (f : Fault) : DAC cfg (log ++ [(c, f)]) := by
+  intro pre k' f' post hl hf
+  rcases snoc_eq_append_cons hl with ⟨_, _, h3⟩ | h4
+  · exact absurd (congrArg Prod.fst h3).symm (hc k')
+  · -- the destroy entry lies inside `log`: use the hypothesis on `log` and transport the prefix
+    have key : ∀ (L pre post : List (Call × Fault)) (x y : Call × Fault), x.1 ≠ y.1 →
+        L ++ [x] = pre ++ y :: post → ∃ post', L = pre ++ y :: post' := by
+      intro L
+      induction L with
+      | nil =>
+        intro pre post x y hxy e
+        cases pre with
+        | nil => simp at e; exact absurd (congrArg Prod.fst e.1) hxy
+        | cons p ps => simp at e
+      | cons a L ih =>
+        intro pre post x y hxy e
+        cases pre with
+        | nil => simp at e; exact ⟨L, by rw [e.1]; rfl⟩
+        | cons p ps =>
+          simp at e
+          obtain ⟨post', hp⟩ := ih ps post x y hxy e.2
+          exact ⟨post', by rw [e.1, hp]; rfl⟩
+    obtain ⟨post'', hL⟩ := key log pre post (c, f) (Call.kmDestroy k', f') (fun e => hc k' e) hl
+    exact h pre k' f' post'' hL hf
+
+/-- Cloud KMS's destroy request, issued inside a DestroyKeyVersion call that follows the commit -/
+theorem DACK_snoc_kms (cfg : Cfg) {L : List (Call × Fault)} (h : NoDestroy L) (hc : commitCall cfg ∈ L)
+    (k : String) (f f' : Fault) (k' : String) :
+    DACK cfg ((L ++ [(Call.kmDestroy k, f)]) ++ [(Call.kmsDestroy k', f')]) := by
+  intro pre k2 f2 post hl _
+  rcases snoc_eq_append_cons hl with ⟨_, h2, _⟩ | h4
+  · rw [h2]; exact List.mem_append_left _ hc
+  · rcases List.mem_append.mp h4 with h5 | h5
+    · exact absurd rfl (h _ h5 k2).2
+    · simp at h5
 
 end GceTcb.CA
